@@ -32,6 +32,7 @@ THOROUGH = QUICK + [
     (1, [[2, 2], [2]], 2), (1, [[2], [2, 2]], 2), (3, [[3]], 2), (2, [[1, 4]], 2),
 ]
 BOUNDARY = [256, 257, 65536, 65537]
+WIDE_COLS = {"quick": [300, 1023, 1024, 1025, 1500], "thorough": [300, 1023, 1024, 1025, 1500, 2048, 2049, 5000]}   # columns of one two-axis dimension
 LONG_N = 20
 LONG_RUNS = [9, 10, 12, 16, 17, 18, 19]   # one entry this many times longer than the one it meets (galloping / bisecting merges switch strategy on the ratio)
 
@@ -43,9 +44,9 @@ def describe(tier):
         "{0..E-1}, EVERY common value in 0..E per dimension (E = absent from the data), explicit shape (E+1 per dim) and inferred shape; count() "
         "read through the NaN format and the (0, False) format. Plus boundary extents %r on one dimension (alone and crossed with a small one) "
         "and the zero-dimension cube with N=0..3; plus a %d-row family where one dimension holds a run of L in %r rows (every start) and the other one or two rows "
-        "(every single row, every pair of run-edge rows), both orders and a third alternating dimension. Oracle: loop over rows incrementing a table; missing iff zero. Non-trivial: >=2 dimensions or "
+        "(every single row, every pair of run-edge rows), both orders and a third alternating dimension (a quarter of them also with every stored row-id array as a non-contiguous view); a two-axis dimension of %r columns crossed with a flat one. Oracle: loop over rows incrementing a table; missing iff zero. Non-trivial: >=2 dimensions or "
         "an extra axis, and at least one dimension whose common cell is reconstructed non-empty while another value is present. "
-        "Distinct = distinct (config, data, commons)." % (BOUNDARY, LONG_N, LONG_RUNS),
+        "Distinct = distinct (config, data, commons)." % (BOUNDARY, LONG_N, LONG_RUNS, WIDE_COLS[tier]),
         "bounds": {"configs": [(n, [list(e) for e in ex], E) for n, ex, E in cfg]},
         "exhaustive": True,
         "assumptions": ["indexes are built by the harness builder (models.build_index), not by from_array"],
@@ -76,6 +77,8 @@ def blocks(tier):
             out.append(("cfg", {"N": N, "extras": extras, "E": E, "a0": a, "a1": min(n0, a + step)}))
     for L in LONG_RUNS:
         out.append(("long", {"L": L}))
+    for C in WIDE_COLS[tier]:
+        out.append(("widecols", {"C": C}))
     for X in BOUNDARY:
         for N in (1, 2, 3):
             for i in range(3 ** N):
@@ -111,12 +114,19 @@ def compare(res_nan, res_pair, table, acc, case, site):
         acc.violation(site + ":values", case, "pair format: %r, expected %r" % (v.tolist(), table.tolist()))
 
 
-def check_cube(denses, commons, E_shape, acc, case):
+def check_cube(denses, commons, E_shape, acc, case, layout=None):
     from catii.ccubes import ccube
 
     N = int(denses[0].shape[0])
     for mode in ("explicit", "inferred"):
         dims = [M.build_index(d, c) for d, c in zip(denses, commons)]
+        if layout == "strided-entries":
+            for d in dims:
+                for k in list(dict.keys(d)):
+                    a = dict.__getitem__(d, k)
+                    big = numpy.zeros(2 * len(a) + 1, dtype=numpy.uint32)
+                    big[::2][:len(a)] = a
+                    dict.__setitem__(d, k, big[::2][:len(a)])
         try:
             cube = ccube(dims, interacting_shape=tuple(E_shape) if mode == "explicit" else None)
             shape = tuple(int(s) for s in cube.interacting_shape)
@@ -160,6 +170,21 @@ def run_block(family, p, acc):
                 acc.violation("count0:raised", case, repr(e))
             acc.case(("zero", N), nontrivial=False, outcome=("zero", N), sample=case)
         return
+    if family == "widecols":
+        # one dimension with C columns (C sub-cubes) crossed with a flat one: block-wise processing of the sub-cube axis
+        C, N = p["C"], 3
+        r = numpy.arange(N)[:, None]
+        c = numpy.arange(C)[None, :]
+        d0 = ((r * 2 + c + c // 7) % 3).astype(numpy.int64)
+        d1 = numpy.array([0, 1, 1], dtype=numpy.int64)
+        for commons in ((0, 0), (1, 2), (2, 1)):
+            for order in ("wide-first", "wide-last"):
+                denses = [d0, d1] if order == "wide-first" else [d1, d0]
+                cs = list(commons) if order == "wide-first" else list(commons[::-1])
+                case = {"widecols": C, "commons": cs, "order": order}
+                check_cube(denses, cs, (3, 3), acc, case)
+                acc.case(("widecols", C, tuple(cs), order), nontrivial=True, outcome=("widecols", C > 1024), sample=case)
+        return
     if family == "long":
         N, L = LONG_N, p["L"]
         third = numpy.arange(N, dtype=numpy.int64) % 2
@@ -174,6 +199,8 @@ def run_block(family, p, acc):
                 for c1, c2 in ((0, 0), (1, 0), (2, 0)):
                     case = {"long": True, "run": [s0, L], "probe": list(pr), "commons": [c1, c2]}
                     check_cube([run, b], [c1, c2], (3, 3), acc, dict(case, order="run,probe"))
+                    if (s0 + len(pr)) % 4 == 0:
+                        check_cube([run, b], [c1, c2], (3, 3), acc, dict(case, order="run,probe", layout="strided-entries"), layout="strided-entries")
                     check_cube([b, run], [c2, c1], (3, 3), acc, dict(case, order="probe,run"))
                     acc.case(("long", s0, L, pr, c1), nontrivial=True, outcome=("long", bool(run[list(pr)].any())), sample=case)
                 case = {"long": True, "run": [s0, L], "probe": list(pr), "commons": [0, 0, 0], "order": "3d"}
@@ -216,7 +243,14 @@ def replay(case, site=None):
     from catii.ccubes import ccube
 
     acc = Acc(ID, [], stop_at_first=False)
-    if case.get("long"):
+    if case.get("widecols"):
+        C, N = case["widecols"], 3
+        r = numpy.arange(N)[:, None]
+        c = numpy.arange(C)[None, :]
+        d0 = ((r * 2 + c + c // 7) % 3).astype(numpy.int64)
+        d1 = numpy.array([0, 1, 1], dtype=numpy.int64)
+        check_cube([d0, d1] if case["order"] == "wide-first" else [d1, d0], case["commons"], (3, 3), acc, case)
+    elif case.get("long"):
         N = LONG_N
         run = numpy.zeros(N, dtype=numpy.int64)
         run[case["run"][0]:case["run"][0] + case["run"][1]] = 1
@@ -228,7 +262,7 @@ def replay(case, site=None):
         elif case.get("order") == "probe,run":
             check_cube([b, run], [c[1], c[0]], (3, 3), acc, case)
         else:
-            check_cube([run, b], c, (3, 3), acc, case)
+            check_cube([run, b], c, (3, 3), acc, case, layout=case.get("layout"))
     elif "X" in case:
         a = numpy.array(case["data"], dtype=numpy.int64)
         if "data2" in case:
